@@ -18,8 +18,17 @@ for f in sorted(glob.glob(V + '/seeded/*/meta.json'), key=lambda p: (os.path.bas
         else:
             caught.append('%s: CHECK-BROKEN (%s)' % (c['check'], c['exit']))
     idea = re.sub(r'^C\d\d-\d+\s*[-—–]+\s*', '', m.get('idea', ''))
-    rows.append('| %s | %s | %s | %s | %s |' % (m['seed'], idea.replace('|', '/'), 'yes' if ok else 'NO', '; '.join(caught).replace('|', '/'), m.get('first_round', '').replace('|', '/')))
-table = '| seed | change | verified (suite 449/17, demo fails with / passes without) | result of `./check` on the patched tree (quick tier) | history |\n|---|---|---|---|---|\n' + '\n'.join(rows)
+    fs = m.get('final_sweep') or {}
+    if 'exit' in fs:
+        keys = [k for k in fs.get('keys', '').split(',') if k]
+        conc = [k for k in keys if k not in ('mismatch', 'obligation', 'None', 'no-failing-input-found')]
+        sweep = 'exit %d%s' % (fs['exit'], (': ' + ', '.join('`%s`' % k for k in conc[:2])) if conc else (' no-failing-input-found' if fs['exit'] == 1 else ' (not noticed by its own property; see previous column)'))
+        if 'patch_head.diff' in os.listdir(os.path.dirname(f)):
+            sweep += ' (patch ported to HEAD: patch_head.diff)'
+    else:
+        sweep = fs.get('result', '')
+    rows.append('| %s | %s | %s | %s | %s | %s |' % (m['seed'], idea.replace('|', '/'), 'yes' if ok else 'NO', '; '.join(caught).replace('|', '/'), sweep.replace('|', '/'), m.get('first_round', '').replace('|', '/')))
+table = '| seed | change | verified (suite 449/17, demo fails with / passes without) | result of `./check` on the patched scratch tree (quick tier; own property and neighbours) | final sweep: patch applied to /repo itself, registered `./check <own property>`, /repo restored | history |\n|---|---|---|---|---|---|\n' + '\n'.join(rows)
 if '--write' in sys.argv:
     p = V + '/DESIGN.md'
     s = open(p).read()
